@@ -314,11 +314,16 @@ def jobs(tier):
                           bounds=dict(stations=[s_[0] for s_ in tri3[0]], constraints=tri3[1], sessions=3, sort=sort, continuous_inc=inc), cost=300))
     # a second call on the same algorithm object after other sessions used the same stations
     st, rows, lh = nets["av5+cc(mixed sign)"]
-    for sort in (("fcfs",) if q else ("fcfs", "lrpt")):
-        js.append(Job("rr_second_call[av5+cc,%s]" % sort, h_rr, dict(stations=st, rows=[(1, 1)], sessions=SESS2, sort=sort, inc=0.05, limit_hi=lh, warmup=True), functions=FUNCS, max_paths=200000, timeout=6000,
-                      bounds=dict(stations=[s_[0] for s_ in st], sessions=2, sort=sort, calls="warm-up call for two other sessions (0.2-0.7 kWh), then the judged call"), cost=60))
-        js.append(Job("greedy_second_call[av5+cc,%s]" % sort, h_greedy, dict(stations=st, rows=[(1, 1)], sessions=SESS2, sort=sort, limit_hi=lh, warmup=True), functions=FUNCS, max_paths=200000, timeout=6000,
-                      bounds=dict(stations=[s_[0] for s_ in st], sessions=2, sort=sort, calls="warm-up call for two other sessions (0.2-0.7 kWh), then the judged call"), cost=60))
+    for sort, wu in ((("fcfs", True), ("fcfs", "update")) if q else (("fcfs", True), ("lrpt", True), ("fcfs", "update"), ("lrpt", "update"))):
+        tagw = "" if wu is True else ",network_updated_between"
+        js.append(Job("rr_second_call[av5+cc,%s%s]" % (sort, tagw), h_rr, dict(stations=st, rows=[(1, 1)], sessions=SESS2, sort=sort, inc=0.05, limit_hi=lh, warmup=wu), functions=FUNCS, max_paths=200000, timeout=6000,
+                      bounds=dict(stations=[s_[0] for s_ in st], sessions=2, sort=sort, calls="warm-up call for two other sessions (0.2-0.7 kWh), then the judged call" + ("" if wu is True else "; every constraint updated in between")), cost=60))
+        if wu is True or not q:
+            js.append(Job("greedy_second_call[av5+cc,%s%s]" % (sort, tagw), h_greedy, dict(stations=st, rows=[(1, 1)], sessions=SESS2, sort=sort, limit_hi=lh, warmup=wu), functions=FUNCS, max_paths=200000, timeout=6000,
+                          bounds=dict(stations=[s_[0] for s_ in st], sessions=2, sort=sort, calls="warm-up call for two other sessions (0.2-0.7 kWh), then the judged call" + ("" if wu is True else "; every constraint updated in between")), cost=60))
+    # the warm-up call is a round-robin call, the judged call a greedy one by ANOTHER algorithm object sharing the network
+    js.append(Job("greedy_after_rr_on_shared_network[av5+cc,fcfs]", h_greedy, dict(stations=st, rows=[(1, 1)], sessions=SESS2, sort="fcfs", limit_hi=lh, warmup="rr_other_object"), functions=FUNCS, max_paths=200000, timeout=6000,
+                  bounds=dict(stations=[s_[0] for s_ in st], sessions=2, sort="fcfs", calls="a RoundRobin object schedules two other sessions on the network first; then a fresh greedy algorithm is judged"), cost=60))
     for fin, vac in (((), ()), ((1,), ()), ((), (0,))) if q else [((), ()), ((1,), ()), ((), (0,)), ((0, 2), ()), ((2,), (1,))]:
         js.append(Job("uncontrolled[finished=%s,vacated=%s]" % (fin, vac), h_uncontrolled, dict(stations=[("C32", 208, 0), ("CC", 240, 0), ("AV5", 120, 0)], sessions=SESS3, finished=fin, vacate=vac),
                       functions=FUNCS, bounds=dict(stations=3, sessions=3, finished=fin, vacated=vac)))
